@@ -75,6 +75,9 @@ type Harness struct {
 	// After, if set, runs after the bubble has ended (real time, no scheduler): checks over the
 	// recorded history that need real goroutines or real timeouts (porcupine).
 	After func(c *Ctx)
+	// PreemptMax > 0 switches on the fault kind "goroutine descheduled while time passes" for goroutines
+	// that called verifrt.SetPreemptible (see verifrt.Config.PreemptMax).
+	PreemptMax time.Duration
 }
 
 // Result of one run.
@@ -139,7 +142,7 @@ func RunOnce(t *testing.T, h Harness, seed uint64, tape verifrt.Tape, keepLog bo
 		}
 	}()
 	synctest.Test(t, func(t *testing.T) {
-		s := verifrt.Run(verifrt.Config{Seed: seed, Replay: tape, Horizon: h.Horizon, MaxSteps: h.MaxSteps, KeepLog: keepLog, KeepPct: -1}, func() { h.Body(c) })
+		s := verifrt.Run(verifrt.Config{Seed: seed, Replay: tape, Horizon: h.Horizon, MaxSteps: h.MaxSteps, KeepLog: keepLog, KeepPct: -1, PreemptMax: h.PreemptMax}, func() { h.Body(c) })
 		res.Fingerprint = fmt.Sprintf("%016x", s.Fingerprint())
 		res.Steps, res.Draws, res.SimTimeMs = s.Steps, s.Draws(), s.SimTime.Milliseconds()
 		res.Faults, res.Probes = s.Faults, s.Probes
